@@ -46,25 +46,30 @@ def main(chk):
     job_path = os.path.join(wd, "jobs.json")
     json.dump(jobs, open(job_path, "w"))
     outs = []
-    for hs in hashseeds:
+    # what a process executed before a job must not matter either: every other interpreter
+    # works through the job list in reverse order
+    for n, hs in enumerate(hashseeds):
         out_path = os.path.join(wd, "out_%s.json" % hs)
-        env = dict(os.environ, PYTHONHASHSEED=hs, PYTHONDONTWRITEBYTECODE="1", D42_REPO=repo)
+        env = dict(os.environ, PYTHONHASHSEED=hs, PYTHONDONTWRITEBYTECODE="1", D42_REPO=repo,
+                   VERIF_JOB_ORDER="reverse" if n % 2 else "forward")
         p = subprocess.run([sys.executable, os.path.join(os.path.dirname(__file__), "seedworker.py"),
                             job_path, out_path], env=env, stdout=subprocess.PIPE, stderr=subprocess.STDOUT,
                            text=True, timeout=1800)
         if p.returncode != 0 or not os.path.exists(out_path):
             raise core.MachineryFailure("seed worker failed under PYTHONHASHSEED=%s:\n%s" % (hs, p.stdout[-2000:]))
-        outs.append(json.load(open(out_path)))
+        o = json.load(open(out_path))
+        o["by_id"] = {r["id"]: r for r in o["results"]}
+        outs.append(o)
     events = []
     for j in jobs:
         runs = []
         for o in outs:
-            r = o["results"][j["id"] - 1]
-            assert r["id"] == j["id"]
+            r = o["by_id"][j["id"]]
             runs.append({"hashseed": o["hashseed"], "first": r["first"], "second": r["second"],
                          "draws_ok": r["draws_ok"]})
             chk.count("draws_recorded", r["ndraws"])
-        reprs = [repr(am.g_schema(s))[:120] for s in j["seq"]]
+        reprs = [("(%r) + (%r)" % (am.g_schema(s["a"]), am.g_schema(s["b"])))[:160] if "x" in s
+                 else repr(am.g_schema(s))[:120] for s in j["seq"]]
         events.append({"id": j["id"], "seed": j["seed"], "seq": j["seq"], "runs": runs, "reprs": reprs})
         chk.count("sequences")
     chk.require(chk.counts.get("draws_recorded", 0) >= 2000, "too few draws observed")
